@@ -221,20 +221,32 @@ func CheckReplica(db raftio.ILogDB, r *Rep, tr Traits) *Mismatch {
 	return nil
 }
 
-// CheckNodeList compares ListNodeInfo with the model.
-func CheckNodeList(db raftio.ILogDB, m *Model) *Mismatch {
+// CheckNodeList compares ListNodeInfo with the model. With ignoreRemoved the
+// replicas marked Removed may or may not be listed (crash validation does not
+// decide RemoveNodeData).
+func CheckNodeList(db raftio.ILogDB, m *Model, ignoreRemoved bool) *Mismatch {
 	return safely("listnodeinfo", func() *Mismatch {
 		nis, err := db.ListNodeInfo()
 		if err != nil {
 			return mm("listnodeinfo-error", "ListNodeInfo failed: %v", err)
 		}
+		skip := map[string]bool{}
+		if ignoreRemoved {
+			for _, r := range m.Reps {
+				if r.Removed {
+					skip[r.ID()] = true
+				}
+			}
+		}
 		got := make([]string, 0)
 		for _, ni := range nis {
-			got = append(got, fmt.Sprintf("(%d,%d)", ni.ShardID, ni.ReplicaID))
+			if id := fmt.Sprintf("(%d,%d)", ni.ShardID, ni.ReplicaID); !skip[id] {
+				got = append(got, id)
+			}
 		}
 		want := make([]string, 0)
 		for _, r := range m.Reps {
-			if r.Boot != nil {
+			if r.Boot != nil && !skip[r.ID()] {
 				want = append(want, r.ID())
 			}
 		}
